@@ -148,10 +148,89 @@ func vfLockWatchdog(st *vfshared.Stats, prop, part string, c any, d time.Duratio
 			fmt.Fprintf(os.Stderr, "%s violated: %s (replay %s)\n", prop, msg, p)
 			os.Exit(1)
 		}
+		// nothing waits for a lock: is a goroutine of the proxy spinning (never blocking, so virtual time cannot pass)?
+		if where := vfSpinningInRepo(); where != "" {
+			if prop == "C03" || prop == "C06" || prop == "C08" { // properties with a "no stuck worker / eventually" clause
+				p := vfshared.WriteReplay(prop, part, c)
+				msg := fmt.Sprintf("the case did not finish within %s of real time: goroutine(s) of the proxy spin without ever blocking (busy loop: a stuck worker, and whatever it was to deliver never arrives): %s", d, where)
+				st.Violation(p, msg)
+				st.Flush()
+				fmt.Fprintf(os.Stderr, "%s violated: %s (replay %s)\n", prop, msg, p)
+				os.Exit(1)
+			}
+			fmt.Fprintf(os.Stderr, "INCONCLUSIVE: the case did not finish within %s of real time: busy loop in %s\n", d, where)
+			os.Exit(3)
+		}
 		fmt.Fprintf(os.Stderr, "INCONCLUSIVE: the case did not finish within %s of real time, but none of the probed locks is held\n", d)
 		os.Exit(3)
 	}()
 	return func() { close(done) }
+}
+
+var vfRunState = regexp.MustCompile(`^goroutine \d+ \[(running|runnable)[^\]]*\]:$`)
+
+// vfSpinningInRepo samples all goroutine stacks three times, 1 s apart, and returns the repository functions in which
+// the same goroutines are running or runnable every time ("" if none): after a real-time budget that exceeds a case's
+// normal duration by orders of magnitude, a goroutine that is on the CPU in the same proxy function at three samples
+// is a busy loop.
+func vfSpinningInRepo() string {
+	sample := func() map[string]string {
+		buf := make([]byte, 8<<20)
+		n := runtime.Stack(buf, true)
+		out := map[string]string{}
+		for _, g := range strings.Split(string(buf[:n]), "\n\n") {
+			lines := strings.Split(g, "\n")
+			if len(lines) < 3 || !vfRunState.MatchString(lines[0]) {
+				continue
+			}
+			id := strings.Fields(lines[0])[1]
+			found, harnessCaller := "", false
+			for i := 1; i+1 < len(lines); i += 2 {
+				fn, file := lines[i], lines[i+1]
+				if strings.HasPrefix(fn, "created by ") {
+					break
+				}
+				inRepo := strings.Contains(file, "/repo/") || strings.Contains(file, "/s2s-proxy/")
+				if r := os.Getenv("VF_REPO"); r != "" && strings.Contains(file, r+"/") {
+					inRepo = true
+				}
+				if !inRepo {
+					continue
+				}
+				if strings.Contains(file, "/vf_") || strings.Contains(file, "/vfshared/") {
+					if found != "" {
+						harnessCaller = true // a harness goroutine calling into the proxy: not a worker of the proxy
+					}
+					continue // (above the proxy frame: the harness's logger called from proxy code)
+				}
+				// keyed by the OUTERMOST proxy frame (stable while the loop body calls helpers and loggers)
+				if k := strings.LastIndex(fn, "("); k > 0 && strings.HasSuffix(fn, ")") {
+					fn = fn[:k]
+				}
+				found = fn[strings.LastIndex(fn, "/")+1:] + " (" + strings.TrimSpace(strings.Fields(file)[0]) + ")"
+			}
+			if found != "" && !harnessCaller {
+				out[id] = found
+			}
+		}
+		return out
+	}
+	a := sample()
+	time.Sleep(time.Second)
+	b := sample()
+	time.Sleep(time.Second)
+	c := sample()
+	var where []string
+	for id, fn := range a {
+		if b[id] == fn && c[id] == fn {
+			where = append(where, fn)
+		}
+	}
+	sort.Strings(where)
+	if len(where) > 4 {
+		where = where[:4]
+	}
+	return strings.Join(where, "; ")
 }
 
 var vfMutexState = regexp.MustCompile(`^goroutine \d+ \[(sync\.(RW)?Mutex\.(R)?Lock|semacquire)[^\]]*\]:$`)
